@@ -24,12 +24,14 @@ type FuncResult struct {
 	GenSeconds  float64        `json:"gen_s"`
 	Obls        []*Obligation  `json:"-"`
 	Trusted     bool           `json:"trusted,omitempty"`
+	MaxRank     int            `json:"max_rank,omitempty"`
 	File        string         `json:"file,omitempty"`
 }
 
 type VerifyOpts struct {
-	MaxRank int
-	Prune   bool
+	MaxRank  int
+	Prune    bool
+	Thorough bool
 }
 
 func (P *Prog) VerifyFunc(key string, c *Contract, opts VerifyOpts) *FuncResult {
@@ -82,7 +84,19 @@ func (P *Prog) verifyWith(key string, c *Contract, opts VerifyOpts, solv *Solver
 		}
 	}
 	if c.Mode == "rank" {
-		for k := 0; k <= opts.MaxRank; k++ {
+		maxRank := opts.MaxRank
+		if v, ok := c.Config["maxrank_quick"]; ok && !opts.Thorough {
+			fmt.Sscanf(v, "%d", &maxRank)
+		}
+		if v, ok := c.Config["maxrank"]; ok {
+			var m int
+			fmt.Sscanf(v, "%d", &m)
+			if m < maxRank {
+				maxRank = m
+			}
+		}
+		fr.MaxRank = maxRank
+		for k := 0; k <= maxRank; k++ {
 			fr.Ranks = append(fr.Ranks, k)
 			run(k)
 			if fr.Unsupported != "" {
@@ -259,7 +273,7 @@ func (x *Exec) atReturn(st *State, res []Value) {
 			x.addObl(st, "ensures", cl.Label, env.evalBool(cl.E), "", cl.Src)
 		}
 	}
-	if x.retPaths <= 4 {
+	if x.retPaths <= 8 {
 		x.obls = append(x.obls, &Obligation{Name: shortKey(x.key) + "#vacuity:return", Func: x.key, Kind: "vacuity", Label: "return",
 			Rank: x.rank, Hyps: append([]Term(nil), st.pc...), Goal: TFalse, decls: x.decls, prog: x, Canary: true, Path: strings.Join(st.path, ">"), inputs: x.inputs})
 	}
@@ -380,38 +394,91 @@ func (x *Exec) specApply(e *Env, f *SpecFn, vals []Value) Value {
 			}
 			names[p] = rebuild(vals[i], fs)
 		}
-		for pass := 0; pass < 2; pass++ {
+		arrFormal := func(pi int) string {
+			if sv, ok := names[f.Params[pi]].(SliceV); ok {
+				return sv.Arr.S
+			}
+			return ""
+		}
+		var body Term
+		for pass := 0; pass < 4; pass++ {
 			dst := &State{cells: map[*Cell]Value{}, heap: map[string]Term{}, loopHd: map[*Loop]*State{}, loopIt: map[*Loop]int{}, formal: def}
 			dst.alloc = Term{"alloc!f", SInt}
 			def.building = true
 			def.pass = pass
 			env := &Env{x: x, st: dst, names: names, defMode: def, depth: 0}
-			body := env.eval(f.Body).(Scalar).T
+			body = env.eval(f.Body).(Scalar).T
 			def.building = false
-			if pass == 1 {
-				var ps []string
-				for _, m := range def.maps {
-					ps = append(ps, fmt.Sprintf("(%s %s)", m.name+"$f", m.sort))
+			// which heap formals does the body need? prefer the inner array of a slice parameter
+			// (select M arr) over the whole map M, so that writes to other arrays do not matter
+			var hf []heapFormal
+			txt := body.S
+			for _, m := range def.maps {
+				for pi := range f.Params {
+					af := arrFormal(pi)
+					if af == "" {
+						continue
+					}
+					pat := "(select " + m.name + "$f " + af + ")"
+					if strings.Contains(txt, pat) {
+						hf = append(hf, heapFormal{m: m, param: pi})
+						txt = strings.ReplaceAll(txt, pat, innerName(m, pi))
+					}
 				}
-				for _, fo := range formals {
-					ps = append(ps, fmt.Sprintf("(%s %s)", fo.S, fo.Sort))
+			}
+			for _, m := range def.maps {
+				if strings.Contains(txt, m.name+"$f") {
+					hf = append(hf, heapFormal{m: m, param: -1})
 				}
-				// facts assumed inside the definitional state are dropped (they are type invariants)
-				x.decls.Raw(name, fmt.Sprintf("(define-fun-rec %s (%s) %s %s)", name, strings.Join(ps, " "), retSort, body.S))
+			}
+			stable := len(hf) == len(def.heapFormals)
+			if stable {
+				for k := range hf {
+					if hf[k] != def.heapFormals[k] {
+						stable = false
+					}
+				}
+			}
+			def.heapFormals = hf
+			if stable && pass > 0 {
+				body = Term{txt, body.Sort}
+				break
+			}
+			body = Term{txt, body.Sort}
+		}
+		var ps []string
+		for _, h := range def.heapFormals {
+			if h.param >= 0 {
+				ps = append(ps, fmt.Sprintf("(%s %s)", innerName(h.m, h.param), elemSortOfArray(h.m.sort)))
+			} else {
+				ps = append(ps, fmt.Sprintf("(%s %s)", h.m.name+"$f", h.m.sort))
 			}
 		}
+		for _, fo := range formals {
+			ps = append(ps, fmt.Sprintf("(%s %s)", fo.S, fo.Sort))
+		}
+		// facts assumed inside the definitional state are dropped (they are type invariants)
+		x.decls.Raw(name, fmt.Sprintf("(define-fun-rec %s (%s) %s %s)", name, strings.Join(ps, " "), retSort, body.S))
 	}
 	var args []Term
-	if def.building {
-		if def.pass == 0 {
-			return Scalar{Term{"dummy!" + retSort, retSort}}
+	if def.building && def.pass == 0 {
+		return Scalar{Term{"dummy!" + retSort, retSort}}
+	}
+	for _, h := range def.heapFormals {
+		var mt Term
+		if def.building {
+			mt = Term{h.m.name + "$f", h.m.sort}
+		} else {
+			mt = x.heapGet(e.st, h.m)
 		}
-		for _, m := range def.maps {
-			args = append(args, Term{m.name + "$f", m.sort})
-		}
-	} else {
-		for _, m := range def.maps {
-			args = append(args, x.heapGet(e.st, m))
+		if h.param >= 0 {
+			sv, ok := vals[h.param].(SliceV)
+			if !ok {
+				panic(fmt.Errorf("spec function %s: argument %d is not a slice", f.Name, h.param))
+			}
+			args = append(args, Select(mt, sv.Arr))
+		} else {
+			args = append(args, mt)
 		}
 	}
 	for _, v := range vals {
@@ -419,3 +486,11 @@ func (x *Exec) specApply(e *Env, f *SpecFn, vals []Value) Value {
 	}
 	return Scalar{App(retSort, name, args...)}
 }
+
+
+type heapFormal struct {
+	m     mapRef
+	param int // index of the slice parameter whose inner array is passed; -1: the whole map
+}
+
+func innerName(m mapRef, pi int) string { return fmt.Sprintf("%s$in%d", m.name, pi) }
